@@ -47,6 +47,7 @@ def PAIR(a, b): return ('pair', a, b)
 def ARR(t): return ('arr', t)
 def BOX(t): return ('box', t)
 def PAREN(t): return ('paren', t)   # `(T)`: a parenthesised type, the same type as T
+def REF(t): return ('ref', t)       # `&'a T`: Clone and Copy whatever T is, never Default, everything else through T
 
 
 def rust(t):
@@ -73,6 +74,8 @@ def rust(t):
         return f'Box<{rust(t[1])}>'
     if k == 'paren':
         return f'({rust(t[1])})'
+    if k == 'ref':
+        return f"&'a {rust(t[1])}"
     raise ValueError(t)
 
 
@@ -91,6 +94,10 @@ def parse_term(s):
         return LTPH
     if s == '[u8;N]':
         return ARRN
+    m = re.fullmatch(r"&'a(.+)", s)
+    if m:
+        t = parse_term(m.group(1))
+        return REF(t) if t else None
     if re.fullmatch(r'[A-Z][A-Za-z0-9_]*', s) and s not in ('Self',):
         return P(s)
     m = re.fullmatch(r'(::core::marker::)?PhantomData<(.+)>', s)
@@ -186,6 +193,8 @@ class Enc:
             return z3.BoolVal(False)
         if k == 'phantom':
             return z3.BoolVal(True)
+        if k == 'ref':
+            return z3.BoolVal(True) if tr in ('Clone', 'Copy') else z3.BoolVal(False) if tr == 'Default' else self.holds(t[1], tr)
         if k == 'opt':
             return z3.BoolVal(True) if tr == 'Default' else self.holds(t[1], tr)
         if k == 'pair':
@@ -660,6 +669,13 @@ def c11_corpus(tier, seed):
     for tr in ['Debug', 'Clone', 'PartialEq', 'Hash', 'Default']:
         add('struct', tparams(['T', 'U']), [('S', 'named', [Field(PAREN(T)), Field(PAREN(OPT(U))), Field(U8)], False)], [(tr, None)])
     add('enum', tparams(['T', 'U']), [('A', 'tuple', [Field(PAREN(T), PartialOrd='ignore'), Field(PAREN(PAIR(U, U8)))], False), ('B', 'unit', [], False)], [('PartialOrd', None)], hand=['PartialEq'])
+    # reference-typed fields `&'a T`: the field type itself is bounded (`&'a T: Clone` holds for every T), never the referent
+    LTU = [('lifetime', "'a", None, None)] + tparams(['T', 'U'])
+    for trs in [[('Clone', None)], [('Copy', None), ('Clone', None)], [('Debug', None)], [('PartialEq', None)], [('Hash', None)], [('PartialOrd', None)]]:
+        hand = ['PartialEq'] if trs[0][0] == 'PartialOrd' else []
+        add('struct', LTU, [('S', 'named', [Field(REF(T)), Field(U), Field(U8)], False)], trs, hand=hand)
+        add('enum', LTU, [('A', 'tuple', [Field(REF(T))], False), ('B', 'named', [Field(OPT(REF(U))), Field(LTPH)], False)], trs, hand=hand)
+    add('struct', LTU, [('S', 'tuple', [Field(REF(T), Default='expr'), Field(U)], False)], [('Default', None)])
     # Eq next to PartialEq (companion), attributes carried by Eq(..)
     add('struct', tparams(['T', 'U']), [('S', 'named', [Field(T), Field(U, Eq='ignore')], False)], [('PartialEq', None), ('Eq', None)])
     add('enum', tparams(['T', 'U']), [('A', 'tuple', [Field(T, PartialEq='method'), Field(OPT(U))], False), ('B', 'unit', [], False)], [('PartialEq', None), ('Eq', None)])
@@ -1041,8 +1057,8 @@ def validate_rules(enc_params=('T', 'U')):
     """translator validation: every structural rule of holds() against rustc, on every run"""
     pr = Probe()
     checks = []
-    ctors = [lambda t: t, OPT, ARR, BOX, PH, lambda t: PAIR(t, U8), lambda t: PAIR(t, t), PAREN]
-    names = ['T', 'Option<T>', '[T; 2]', 'Box<T>', 'PhantomData<T>', '(T, u8)', '(T, T)', '(T)']
+    ctors = [lambda t: t, OPT, ARR, BOX, PH, lambda t: PAIR(t, U8), lambda t: PAIR(t, t), PAREN, REF]
+    names = ['T', 'Option<T>', '[T; 2]', 'Box<T>', 'PhantomData<T>', '(T, u8)', '(T, T)', '(T)', "&'static T"]
     for tr in TRAITS:
         for has in (True, False):
             arg = pr.argtype([tr] if has else [])
@@ -1058,7 +1074,7 @@ def validate_rules(enc_params=('T', 'U')):
                 s.add(f)
                 model_says = s.check() == z3.sat
                 lab = f'rule:{nm}:{tr}:{int(has)}'
-                pr.ask(lab, rust(term).replace('T', arg), TPATH[tr])
+                pr.ask(lab, rust(term).replace('T', arg).replace("'a", "'static"), TPATH[tr])
                 checks.append((lab, model_says))
     for tr in TRAITS:
         for nm, term in (('u8', U8), ('NoImpl', NOIMPL)):
